@@ -77,12 +77,34 @@ SPEC = dict(
     translate=_translate,
     rule="[round 3] column counts 1,2,4,8,16,32,48,64; backends ng/nn = the 16-lane dispatcher of arm/aarch64 targets "
          "(both arms name the generic kernel in the regenerated table; replayed through Pipeline::generic() at C=16); "
-         "ops sm:<seed>:<n> = StripedSequence::sample (stream oracle: EncodedSequence::sample with the same seed and "
-         "background for rows*C symbols; EncodedSequence::sample(n) must be its first n symbols; every cell must be "
-         "draw r*C+c) and nw:<n>:<rows> = StripedSequence::new on a matrix with arbitrary contents (exact / extra / "
-         "too few rows: Err); after sm/nw the padding is arbitrary and the extracted check_C04_pad (C04_check_pad_sound) "
-         "decides until the next stripe op; configure / configure_wrap / Index / count_symbol(s) of the model are the "
-         "statement lists translated from seq.rs (GenSeq.v, SeqT.v). corpus/C04/boundary.txt (331 committed histories: the AVX2 kernel and the dispatcher's AVX2 arm at "
+         "ops sm:<seed>:<n> = StripedSequence::sample as repaired by /repo 740d563 (rows*C draws row by row, then the cells "
+         "past the end overwritten with the wildcard; stream oracle: EncodedSequence::sample with the same seed and "
+         "background for rows*C symbols; EncodedSequence::sample(n) must be its first n symbols; every cell inside the "
+         "sequence must be draw r*C+c): modelled by the translated text PliT.striped_sample_fix and decided in wildcard mode "
+         "by check_C04_full (C04_sample_striped; C04_sample_prefix_striped_refuted keeps the witness against the function as "
+         "it was: StripedPad but not Striped); nw:<n>:<rows> = StripedSequence::new on a matrix with arbitrary contents "
+         "(exact / extra / too few rows: Err); only after nw, and after vm with look-ahead rows, the padding is arbitrary and "
+         "the extracted check_C04_pad (C04_check_pad_sound) decides until the next stripe op; the padding mode (which "
+         "checker decides after each op) is the extracted Mode.pad_after1 and the decision is the extracted check_mode "
+         "(C04_mode_history, C04_mode_model_passes); configure / configure_wrap / Index / count_symbol(s) of the model are the "
+         "statement lists translated from seq.rs (GenSeq.v, SeqT.v). "
+         "[round 3b] ops cl (buf = buf.clone(), original dropped: exact capacity), fe:<b>:<seq> (StripedSequence::from("
+         "EncodedSequence), C = 32, arm forced), vm (DenseMatrix::from(take(buf)) then StripedSequence::new(m, len): look-ahead "
+         "rows become sequence rows; pad mode when wrap > 0); is_empty() and both as_ref() are replayed in every observation; "
+         "generator family gen_reuse (1/7 of the generated cases: a longer wildcard-free sequence, then new lengths by pair "
+         "class - below C, multiple of R = ceil(L/C) but not of C, multiple of C, partial last column, empty - shrinking and "
+         "growing, through g / dg / ds / ng / nn and a / da); corpus/C04/reuse.txt (571 committed histories: reused-destination "
+         "pair classes for C = 2..64 and every kernel; count_symbol(wildcard) with look-ahead rows and wildcard runs in the "
+         "sequence, on striped and on sample/new-built buffers; Clone and the From conversions); thorough tier: generic sweep "
+         "of every new length 0..=1100 (C = 32) / 0..=C*C+C (C = 16, 8, 4, 2) into a reused destination. The model run by the "
+         "driver is step3: the provided Stripe::stripe / stripe_into are the statement lists translated from pli/mod.rs "
+         "(GenPli.v, PliT.v: C04_pli_translated, C04_pli_expressions, C04_stripe_into_overwrites_everything, "
+         "C04_sample_translated, C04_conversions_history, C04_conversions_spec). PROPFAIL in wildcard mode = check_C04_full "
+         "(C04_check_full_sound, C04_model_passes_full; adds to check_C04: sampled Index in the padding = wildcard, beyond the "
+         "matrix = panic), in padded mode = check_C04_pad; the generic-versus-AVX2 comparison is decided by the extracted "
+         "check_agree on the two states the harness prints (C04_check_agree_sound / _complete; no boolean is computed in Rust "
+         "any more). 57 theorems in C04.v (C04_history_stale_start_stripe: a history beginning with a fresh stripe from ANY "
+         "old state). corpus/C04/boundary.txt (331 committed histories: the AVX2 kernel and the dispatcher's AVX2 arm at "
          "L = 0,1,31..33,63..65,991..993,1000 (the repaired over-read),1023..1025,1054..1057,1087..1089,2047..2049,"
          "2078..2081,3103..3105 into a stale configured buffer; the 64 / 1031 nt lengths of tests/stripe.rs through "
          "all five pipelines; wrap wider than the row count, growing/shrinking widths, empty motif, empty sequence for "
@@ -95,9 +117,9 @@ SPEC = dict(
          "look-ahead rows) and large; the thorough tier starts with a sweep of every length 0..1100 through the AVX2 "
          "kernel and the dispatcher's AVX2 arm into a stale buffer. After EVERY op the harness observes len, wrap, "
          "rows, every matrix cell, Index at every position 0..len-1 and at sampled positions up to / beyond the end "
-         "of the matrix (panic = observation), count_symbols, count_symbol of every symbol, and whether generic and "
-         "AVX2 stripe_into of that sequence into clones of the buffer agree cell by cell. PROPFAIL = the extracted "
-         "checker check_C04 (Coq, C04_check_sound: accepts only observations that are the striped form of the "
+         "of the matrix (panic = observation), count_symbols, count_symbol of every symbol, and the two states that generic and "
+         "AVX2 stripe_into of that sequence produce in clones of the buffer. PROPFAIL = the extracted "
+         "checker check_mode (= check_C04_full / check_C04_pad, see above; check_C04, C04_check_sound: accepts only observations that are the striped form of the "
          "sequence striped last, with shifted look-ahead rows, Index = linear sequence, counts = linear counts, "
          "backends agreeing) rejects the implementation's observation, or an op panicked (C04_striped_history: none "
          "may). DIFF = observation differs from the extracted Coq model run on the same history (matrix, len, wrap, "
@@ -107,8 +129,17 @@ SPEC = dict(
     trusted_base=[
         "Coq 8.16.1 kernel (coqc; coqchk -o on LMStripe.C04 in the thorough tier); vm_compute in the reflection "
         "lemma about the translated network (NetProofs.net_coords and three forallb facts about the load/store "
-        "lists) and in Example lemmas; no native_compute; all theorems closed under the global context",
-        "extraction: ExtrOcamlBasic only (nat, list kept as extracted inductives); OCaml 4.13.1",
+        "lists) and in Example lemmas / closed witnesses (C04_sample_prefix_striped_refuted); no native_compute",
+        "extraction: ExtrOcamlBasic only (its Extract Inductive directives for bool, option, list, prod, unit, sumbool, "
+        "sumor); no other Extract Inductive and no Extract Constant (nat kept as an extracted inductive); OCaml 4.13.1",
+        "translator translate/stripe_pli.py (statement-skeleton regexes + expression parser over pli/mod.rs trait Stripe: "
+        "stripe / stripe_into row formulas, capacity, reserve / resize arguments, both loops' index expressions, fill range, "
+        "new arguments; over seq.rs StripedSequence::sample as repaired by /repo 740d563 (row formula, fill-order skeleton, "
+        "the wildcard fill loop, new length; the pre-fix text does not parse) and EncodedSequence::sample (take(length)); 15 "
+        "forwarding facts matched in the source: empty impls for Generic, AVX2 / dispatch override only stripe_into, "
+        "to_striped, the two From impls, into_matrix, derived Clone, the getters len / is_empty / wrap / matrix, Default, the "
+        "two AsRef impls) -> coq/stripe/GenPli.v; proved equal to the hand model (C04_pli_translated, C04_sample_translated); "
+        "a source it cannot parse is a broken obligation",
         "translator translate/stripe_seq.py (statement-skeleton regexes + expression parser over seq.rs: "
         "DEFAULT_EXTRA_ROWS, StripedSequence::new / configure / configure_wrap, Index<usize>, count_symbol(s)) -> "
         "coq/stripe/GenSeq.v; proved equal to the hand model functions (C04_seq_translated)",
@@ -121,20 +152,41 @@ SPEC = dict(
         "coq/stripe/GenStripeNet.v; a source it cannot parse is a broken obligation",
         "lane semantics of _mm256_unpack{lo,hi}_epi{8,16,32,64} and _mm256_permute2x128_si256 as index lists "
         "(coq/stripe/NetModel.v), exercised by the correspondence check on every run",
-        "hand-written OCaml driver ocaml/stripe/driver.ml (parsing, printing, comparison with the model; the "
-        "PROPFAIL decision itself is the extracted check_C04)",
+        "hand-written OCaml driver ocaml/stripe/driver.ml (parsing, printing, running the extracted model step3, comparison "
+        "with it). The PROPFAIL decision on an observation is the extracted check_mode (check_C04_full in wildcard mode, "
+        "check_C04_pad in padded mode; the mode is the extracted pad_after1; the backend comparison inside it is the extracted "
+        "check_agree); the sub-checkers (check_striped, check_pad, check_wrap_rows, check_index_beyond) are re-run only to "
+        "WORD the detail (not-striped, not-padded-striped, row-width, wrap-row-shift, index-all, count_symbol(s), "
+        "backend-mismatch, index in the padding / beyond the matrix, `check_C04` when none names it). Hand-written PROPFAIL "
+        "paths that remain: a panic of any op of a history (unexpected-panic; C04_striped_history / C04_mode_history: none "
+        "may); a backend-comparison field the harness prefixed with `!` (a panic of either kernel) counts as a mismatch; "
+        "`new rejects a matrix that holds the sequence` / `new accepts a matrix smaller than the sequence` (decided by the "
+        "inequality rows*C >= len in OCaml, also for vm answering Err); `rows()` printed <> number of rows listed; "
+        "`is_empty() / as_ref() inconsistent with len() / matrix()` (flagged by the harness with `!`); the sample-stream "
+        "comparisons (a draw >= K; EncodedSequence::sample(n) <> the first n draws, via the extracted enc_sample). Skipped "
+        "comparison (DIFF type only, never a property decision): the model's own counting loops run for L <= 300 or after "
+        "the last op (cost of unary nat); the implementation's counts are decided against the linear sequence by the "
+        "checker after EVERY op",
         "Rust harness harness/src/bin/stripe.rs (op interpreter over the public API, catch_unwind, hook "
-        "lightmotif::pli::verif::force_backend)",
-        "modelled by hand, tied by the correspondence check only: Stripe::stripe/stripe_into (pli/mod.rs), "
+        "lightmotif::pli::verif::force_backend; prints the generic and the AVX2 state of the backend comparison, decides "
+        "nothing about them)",
+        "modelled by hand, tied by the correspondence check only: "
         "the statement skeleton of stripe_avx2 around the translated parts (resize, early return, asserts, order of "
         "the three loops, StripedSequence::new), "
-        "StripedSequence::sample / EncodedSequence::sample (seq.rs; functional model over an explicit stream), "
-        "DenseMatrix at table level (dense.rs; layout is C19)",
+        "the random streams of StripedSequence::sample / EncodedSequence::sample (functional model over an explicit "
+        "stream), Clone as the identity on (matrix, len, wrap), "
+        "DenseMatrix at table level (dense.rs; layout is C19). Since round 3b NOT hand-modelled any more: "
+        "Stripe::stripe / stripe_into (pli/mod.rs) and the text of StripedSequence::sample are translated (GenPli.v, PliT.v)",
+        "PadModel.striped_sample / PadHistory.run2 / C04_pad_history / C04_sample_spec are unchanged and now describe "
+        "StripedSequence::sample as it was BEFORE /repo 740d563 (kept because coq/score's C01History.v computes on them); "
+        "coq/score and coq/e2e import LMStripe: names and statements are kept stable, additions only",
     ],
     assumptions=[
         "symbols are their indices (< K), A::Symbol::default() is the last symbol (N = 4, X = 20)",
         "a reused buffer is any matrix whose rows have C cells (wf_matrix: the type invariant of DenseMatrix<_, C>); "
-        "histories start from StripedSequence::default() or from any state that is the striped form of some sequence",
+        "histories start from StripedSequence::default() or from any state that is the striped form of some sequence "
+        "(padded form for the op2 / op3 histories: C04_pad_history, C04_mode_history); a history that begins with a fresh "
+        "stripe may start from ANY old state (C04_history_stale_start_stripe)",
         "Vec capacity (with_capacity / reserve) and the non-temporal nature of _mm256_stream_si256 / _mm_sfence "
         "have no logical effect; one matrix row of a 32-column symbol matrix is exactly one 32-byte vector; a "
         "vector load outside the sequence slice / store outside the matrix is an explicit failure of the model "
@@ -142,7 +194,10 @@ SPEC = dict(
         "usize arithmetic does not overflow (lengths far below 2^64)",
         "not modelled: NEON / SSE2 have no striping kernel (the dispatcher's Sse2 arm runs the generic one, table "
         "translated from dispatch.rs; the arm/aarch64 arm table and lane count are regenerated too but can only be "
-        "replayed through the generic pipeline on this host); Clone, Debug; the distribution of sample() (only "
+        "replayed through the generic pipeline on this host); Debug; Vec capacity is not part of the model state (Clone gives "
+        "exact capacity, stripe gives rows + DEFAULT_EXTRA_ROWS: replayed by `cl` ops followed by configure_wrap beyond the old "
+        "capacity, never a logical difference); data.reserve / with_capacity overflow for lengths near usize::MAX; the "
+        "distribution of sample() (only "
         "which draw lands where); reads of DenseMatrix::uninitialized before initialisation (C06)",
     ],
 )
